@@ -8,8 +8,10 @@ cd /verif/repo_contracts
 changed=0
 for f in $(find . -name zz_verif_contracts.go); do
   d=$(dirname "$f")
-  if ! cmp -s "$f" "/repo/$f"; then cp "$f" "/repo/$f"; git -C /repo add "$f"; changed=1; fi
+  if ! cmp -s "$f" "/repo/$f"; then cp "$f" "/repo/$f"; fi
+  git -C /repo add "$f"
 done
+if ! git -C /repo diff --cached --quiet; then changed=1; fi
 if [ $changed = 1 ]; then
   git -C /repo commit -qm "verif: contracts (comment-only, build tag verif)${1:+: $1}"
   git -C /repo log --oneline | head -1
